@@ -1116,7 +1116,9 @@ Matrix Outer_Vector_Product(const Vector& lhs, const Vector& rhs)
 // Eigen systems
 Matrix Householder_Matrix(const Matrix& M)
 {
-	Vector x	 = M.Return_Column(0);
+	Vector x = M.Return_Column(0);
+	if(x.Norm() == 0.0)	  // nothing to reflect (the normalisation below would divide 0 by 0)
+		return Identity_Matrix(x.Size());
 	double alpha = Sign(x.Norm(), -x[0]);
 	Vector e1(x.Size(), 0.0);
 	e1[0]	 = 1.0;
